@@ -133,8 +133,10 @@ fn normalize_basic_value_for_boundaries(
                 let from0to1 = #arbitrary_in_01_range;
 
                 // Scale range [0; 1] to the range of the boundaries
-                let range = ((#upper_value) - (#lower_value)).abs();
-                let x = (#lower_value) + from0to1 * range;
+                let lower: #inner_type = #lower_value;
+                let upper: #inner_type = #upper_value;
+                let range = (upper - lower).abs();
+                let x = lower + from0to1 * range;
 
                 // Make sure we satisfy the exclusive boundaries
                 let x = #adjust_x_lower;
